@@ -66,6 +66,10 @@ pub struct Ctl<'a, C: Crypto> {
     pub crypto: &'a C,
     pub dev_addr: Address,
     pub passcode: u32,
+    /// Returns how many Busy status reports the device has sent so far (from the wire tap);
+    /// lets `case_establish` tell "table full, try again" from a refusal.
+    pub busy_probe: Option<Box<dyn Fn() -> u64 + 'a>>,
+    pub last_case_was_busy: core::cell::Cell<bool>,
 }
 
 impl<'a, C: Crypto> Ctl<'a, C> {
@@ -122,9 +126,41 @@ impl<'a, C: Crypto> Ctl<'a, C> {
     /// Run a CASE handshake (full or - when a resumption record is cached - resumed) and
     /// return the internal id of the new session.
     pub async fn case_establish(&self, fab_idx: NonZeroU8, peer: u64) -> Result<u32, Error> {
+        // A device whose session table is full answers the first Sigma1 with Busy and evicts an
+        // idle session for the next attempt: retry like a real initiator does.
+        let mut last = None;
+        for attempt in 0..4 {
+            if attempt > 0 {
+                super::exec::sleep_ms(600).await;
+            }
+            match self.case_establish_once(fab_idx, peer).await {
+                Ok(id) => return Ok(id),
+                Err(e) => {
+                    let retry = matches!(e.code(), ErrorCode::Busy | ErrorCode::Invalid) && attempt < 3;
+                    last = Some(e);
+                    if !retry {
+                        break;
+                    }
+                    if !self.last_case_was_busy.get() {
+                        break;
+                    }
+                }
+            }
+        }
+        Err(last.unwrap_or_else(|| ErrorCode::Failure.into()))
+    }
+
+    async fn case_establish_once(&self, fab_idx: NonZeroU8, peer: u64) -> Result<u32, Error> {
+        self.last_case_was_busy.set(false);
         let before: Vec<u32> = node::snapshot(self.matter).iter().map(|s| s.id).collect();
         let exchange = Exchange::initiate_plaintext(self.matter, self.crypto, self.dev_addr).await?;
-        CaseInitiator::perform(exchange, self.crypto, fab_idx, peer).await?;
+        let tap0 = self.busy_probe.as_ref().map(|f| f()).unwrap_or(0);
+        let r = CaseInitiator::perform(exchange, self.crypto, fab_idx, peer).await;
+        if r.is_err() {
+            let tap1 = self.busy_probe.as_ref().map(|f| f()).unwrap_or(0);
+            self.last_case_was_busy.set(tap1 > tap0);
+        }
+        r?;
         node::snapshot(self.matter)
             .into_iter()
             .find(|s| {
